@@ -316,11 +316,16 @@ def r1(ctx):
         up, pk = as_pair(repo, f.module, rets[0].value)
 
         def uses(expr, method):
+            # local names bound to the struct's bound method (`struct_unpack = struct_obj.unpack`) stand for it
+            bound = {f"{sl}.{method}"} | {s_.path for s_ in stores(f.node, into_defs=False) if s_.kind == "assign"
+                                          and s_.value is not None and ap(s_.value) == f"{sl}.{method}"}
             # direct mention, or a nested def (by name) all of whose returns use struct_obj.<method>
             if isinstance(expr, ast.Name):
+                if expr.id in bound:
+                    return True
                 defs = [d for d in walk(f.node) if isinstance(d, ast.FunctionDef) and d.name == expr.id]
                 if defs:
-                    return all(any(ap(c.func) == f"{sl}.{method}" for c in calls(d)) for d in defs)
+                    return all(any(ap(c.func) in bound for c in calls(d)) for d in defs)
                 # a local bound (on every branch) to a callable expression
                 vals = [s_.value for s_ in stores(f.node, into_defs=False) if s_.path == expr.id and s_.kind == "assign"
                         and s_.value is not None]
@@ -940,10 +945,24 @@ def r5(ctx):
                 cands = [g for g in repo.funcs.get(node.func.id, []) if g.module is f.module and g.cls is None
                          and g.parent_fn is None]
                 target = cands[0] if len(cands) == 1 else None
+            recv_env = {}
+            if target is None and isinstance(node.func, ast.Attribute) and isinstance(node.func.value, ast.Name):
+                # a method of the object whose fields the environment describes (template_var.make_fill_value()):
+                # found by name among the repository's classes, the known fields travel as the callee's self.<field>
+                recv = node.func.value.id
+                fields = {k[len(recv) + 1:]: v for k, v in local.items() if isinstance(k, str) and k.startswith(recv + ".")}
+                cands = [g for g in repo.funcs.get(node.func.attr, []) if g.cls is not None]
+                if fields and len(cands) == 1 and cands[0].node.args.args:
+                    target = cands[0]
+                    sp = target.node.args.args[0].arg
+                    recv_env = {f"{sp}.{k}": v for k, v in fields.items()}
+                    recv_env[sp] = Sym("self:" + target.cls.name)
             if target is None:
                 return None
             ps = [a.arg for a in target.node.args.args if a.arg not in ("self", "cls")]
-            env2 = {}
+            if recv_env:
+                ps = [a.arg for a in target.node.args.args][1:]
+            env2 = dict(recv_env)
             for pname, anode, aval in zip(ps, node.args, args):
                 env2[pname] = aval
                 # forward symbolic attribute bindings (template_var.type/.size) to the callee's parameter name
@@ -961,7 +980,8 @@ def r5(ctx):
                             if isinstance(kk, str) and kk.startswith(src_name + "."):
                                 env2[k.arg + kk[len(src_name):]] = v
             ev2 = make_ev(target.module)
-            out = run_block(ev2, target.node.body, env2)
+            out = run_block(ev2, [st_ for st_ in target.node.body
+                                  if not (isinstance(st_, ast.Expr) and isinstance(st_.value, ast.Constant))], env2)
             if out.kind == "return":
                 return out.value
             if out.kind == "raise":
@@ -1263,7 +1283,7 @@ def _resolve_value(repo, fi, node, env, depth=0):
     return node, fi, env
 
 
-def _num_layout(value_node, ev=None, env=None):
+def _num_layout(value_node, ev=None, env=None, resolve_name=None, _depth=0):
     """(ff_prefix_len, struct fmt) of a message-number byte expression like b'\xff\xff' + struct.pack('!H', n)
     or struct.pack('!BBH', 0xff, 0xff, n).  Operands that are not literals are evaluated under env (fields of a
     constant table row, module constants)."""
@@ -1282,6 +1302,16 @@ def _num_layout(value_node, ev=None, env=None):
     for n in ast.walk(value_node):
         if id(n) in skip:
             continue
+        if isinstance(n, ast.Name) and resolve_name is not None and _depth < 4 and const(n, bytes) is None and \
+                const(n, str) is None and const(n, int) is None:
+            # a local that holds part of the byte string (num_bytes = struct.pack(..)): look into its assignment
+            sub = resolve_name(n.id)
+            if sub is not None and sub is not n:
+                lay = _num_layout(sub, ev, env, resolve_name, _depth + 1)
+                if lay is not None:
+                    ff += lay[0]
+                    fmt = lay[1] or fmt
+                continue
         bv = const(n, bytes) if not isinstance(n, ast.Call) else None
         if bv is not None:
             for sub in ast.walk(n):
@@ -1308,6 +1338,15 @@ def _num_layout(value_node, ev=None, env=None):
             for a in n.args[1:-1]:
                 if isinstance(a, ast.Constant) and a.value == 0xFF:
                     lead += 1
+                elif isinstance(a, ast.Starred) and ev is not None:
+                    # *ff_prefix: a constant tuple of 0xFF fillers
+                    tv = ev.ev(a.value, env or {})
+                    if isinstance(tv, (tuple, list)) and all(x == 0xFF for x in tv):
+                        lead += len(tv)
+                        for sub in ast.walk(a):
+                            skip.add(id(sub))
+                    else:
+                        return None
                 else:
                     return None
             if lead:
@@ -1363,7 +1402,22 @@ def r7(ctx):
             ctx.ob("C01.R7", f"{f.qual}: builds number bytes for {m}", node is not None, f.where)
             if node is None:
                 continue
-            lay = _num_layout(node, ConstEval(repo, fi_n.module), env_n)
+            ev_n = ConstEval(repo, fi_n.module)
+            fn_node_n = getattr(fi_n, "node", None)
+
+            def _local(name, _ev=ev_n, _fn=fn_node_n, _env=env_n):
+                return _taken_assign(_ev, _fn, _env, name) if _fn is not None else None
+            # locals of the building function that are computable under this frequency (a row looked up in a constant
+            # table, a format taken from it, a filler tuple sized from the format) become part of the environment
+            if fn_node_n is not None:
+                for _ in range(3):
+                    for nm in sorted({x.id for x in ast.walk(fn_node_n) if isinstance(x, ast.Name)} - set(env_n)):
+                        va = _local(nm)
+                        if va is not None:
+                            val_ = ev_n.ev(va, env_n)
+                            if is_const(val_) or type(val_).__name__ == "RecordVal":
+                                env_n[nm] = val_
+            lay = _num_layout(node, ev_n, env_n, _local)
             if lay is None:
                 raise AnalysisError(f"C01.R7: {f.qual} number bytes for {m} not analysable: {norm(node)}")
             k, fmt = lay
